@@ -60,7 +60,7 @@ theorem Dec.step_ext (d : Dec) (p : Option Nat) (b : Bool) (d' : Dec) (x : List 
       exact key _ _ h
   | none =>
     dsimp only at h ⊢
-    by_cases hc : code < range / 2
+    by_cases hc : 2 ^ 31 ≤ (2 ^ 32 + code - range / 2) % 2 ^ 32
     · rw [if_pos hc] at h ⊢
       exact key _ _ h
     · rw [if_neg hc] at h ⊢
